@@ -1,7 +1,16 @@
-"""C02 - record fields agree with the listed pairs and with the input maps (S2; judged from file text vs CMAP text)."""
-from mc import e2e
+"""C02 - record fields agree with the listed pairs and with the input maps.
 
-RULE = ("every record of every file (main,_1,_2) of every standard world (noise-free windows of 3 catalogue references with ids "
+Layer B (S2): every record of every file of the standard worlds, judged from file text vs CMAP text.  Layer A (S1): rows that the
+REAL aligner builds on the indel-ladder lattice worlds - for whole molecules and for the four kinds of second-pass fragment maps
+(head / tail fragment x strand, built the way getUnalignedFragments builds them: whole-molecule coordinates and length, label-number
+shift) - written by the real XMAP writer and judged from the written text with the same field formulas.
+"""
+import os
+
+from mc import core, e2e, cmaptext, xmaptext
+
+RULE = ("A: rows built by the real aligner on the indel-ladder lattice worlds x 3 strand variants x {whole molecule, offset molecule, "
+        "tail fragment, head fragment} written by the real writer; B: every record of every file (main,_1,_2) of every standard world (noise-free windows of 3 catalogue references with ids "
         "24/3/117 and decimal contig lengths, both strands, query coordinate offsets 0/20.0/777.7, all edit scripts of bounded "
         "depth incl. cut/chimera/indel which provoke second-pass records, unsorted query ids) x 4 modes (x parameter settings in "
         "thorough); header fields recomputed from the CMAP text by mc/cmaptext.py; non-trivial = record is '-', second-pass, or of "
@@ -10,9 +19,124 @@ ASSUMPTIONS = ["records whose matching is invalid are deferred to C01 (counted, 
                "formulas calibrated at design time: QryStart/End measured from the first label for '+' and from the last for '-'"]
 
 
+D_PREFIX, T_SUFFIX = 1000, 700      # lattice units in front of / behind the fragment inside the whole molecule
+VARIANTS = ('whole', 'whole+offset', 'tail-fragment', 'head-fragment')
+
+
+def build(q, peaks, rev, variant):
+    """-> (whole-molecule label list as in the CMAP file, OpticalMap handed to the aligner, peak list in that map's frame)"""
+    from mc.coma import OpticalMap
+    if variant in ('whole', 'whole+offset'):
+        off = 777.7 if variant == 'whole+offset' else 0.0
+        raw = [round(p + off, 1) for p in q]
+        return raw, OpticalMap(2, raw[-1] + 250.0, list(raw)).trim(), list(peaks)
+    if variant == 'tail-fragment':
+        # whole molecule = 3 labels, then the fragment D_PREFIX further on; the fragment keeps whole-molecule coordinates, shift 3
+        raw = [0, 300, 600] + [p + D_PREFIX for p in q]
+        frag = OpticalMap(2, raw[-1] + 1, [p + D_PREFIX for p in q], shift=3)
+        return raw, frag, [p - (0 if rev else D_PREFIX) for p in peaks]
+    raw = list(q) + [q[-1] + T_SUFFIX - 400, q[-1] + T_SUFFIX]
+    frag = OpticalMap(2, raw[-1] + 1, list(q), shift=0)
+    return raw, frag, [p - (T_SUFFIX if rev else 0) for p in peaks]
+
+
+_FILES = {}
+
+
+def _args():
+    from src.args import Args
+    from mc import driver
+    d = core.scratch_dir()
+    key = os.getpid()
+    if _FILES.get('pid') != key:
+        rp, qp = os.path.join(d, 'r02.cmap'), os.path.join(d, 'q02.cmap')
+        for p in (rp, qp):
+            with open(p, 'w') as f:
+                f.write(cmaptext.text([(1, 10.0, [1.0])]))
+        _FILES.update(pid=key, rp=rp, qp=qp, op=os.path.join(d, 'o02.xmap'))
+    return Args.parse(driver.cli_args(_FILES['rp'], _FILES['qp'], _FILES['op'], 'best')), _FILES
+
+
+@core.guarded(lambda ref, q, peaks, rev, variant, *a: dict(reference=ref, query=q, peaks=peaks, reverse=rev, variant=variant))
+def check_row(ref, q, peaks, rev, variant, acc, aligner=None):
+    from mc.coma import make_aligner, OpticalMap, Peak, AlignmentResults
+    from src.parsers.xmap_reader import XmapReader
+    al = aligner or make_aligner(4, 100, 1, -25, 100, 120)
+    raw, qmap, pk = build(q, peaks, rev, variant)
+    rlen = ref[-1] + 10
+    row = al.align(OpticalMap(1, rlen, list(ref)), qmap, [Peak(p, 10.) for p in pk], rev)
+    found = []
+    case = dict(reference=ref, query=q, peaks=peaks, reverse=rev, variant=variant)
+    sig = {'strand': '-' if rev else '+', 'fragment': variant.endswith('fragment')}
+    npairs = len(row.alignedPairs)
+    if npairs:
+        if variant.endswith('fragment'):
+            row = row.setAlignedRest(True)
+        args, fl = _args()
+        try:
+            XmapReader().writeAlignments(args.outputFile, AlignmentResults(fl['rp'], fl['qp'], [row]), args)
+            args.outputFile.close()
+            recs = xmaptext.parse(open(fl['op']).read())[2]
+        finally:
+            for fobj in (args.referenceFile, args.queryFile, args.outputFile):
+                fobj.close()
+        if len(recs) != 1:
+            found.append(('field:record-count', 'one row written, %d records in the file' % len(recs), 'row', sig))
+        else:
+            r = recs[0]
+            whole = sorted(raw)
+            if any(not (1 <= a <= len(ref) and 1 <= b <= len(whole)) for a, b in r['pairs']):
+                found.append(('field:pair-names-no-label', 'pairs %s, molecule has %d labels' % (r['pairs'], len(whole)), 'row', sig))
+            else:
+                for sym, detail in e2e.field_problems(r, (float(rlen), [float(x) for x in ref]), (None, [float(x) for x in whole])):
+                    found.append(('field:' + sym, 'variant=%s strand=%s rec=%s | %s' % (variant, sig['strand'], r['_fields'][:13], detail), 'row', sig))
+                if r['QryContigID'] != '2' or r['RefContigID'] != '1' or r['Orientation'] != sig['strand']:
+                    found.append(('field:ids-or-orientation', str(r['_fields'][:8]), 'row', sig))
+    if acc is not None:
+        acc.evals += 1
+        acc.transitions += 3
+        acc.state((variant, rev, npairs, sum(1 for s_ in row.segments if not s_.empty)))
+        if npairs and (rev or variant != 'whole'):
+            acc.nontriv((tuple(q), tuple(peaks), rev, variant))
+        if npairs:
+            acc.classes['rows-written:' + variant] += 1
+        for f in found:
+            acc.viol(f[0], case, f[1], f[2], f[3])
+        acc.sample(case)
+    return found
+
+
+class AlignerRows(core.Layer):
+    name = 'A:aligner-rows'
+
+    def __init__(self, full, optional=False, every=1):
+        from mc import lattice
+        self.optional = optional
+        self.cases = list(lattice.ladder_cases(full))[::every]
+        self.chunk = 30
+        self.bounds = dict(worlds='indel-ladder worlds (mc.props.c15.ladder_worlds(full=%s))' % full, peaks_per_list=[1, 3],
+                           strands=['+ q', '- mirror(q)', '- q'], variants=list(VARIANTS))
+        self.rule = '%d (world, peak list) cases (quick: every third of the enumeration) x 3 strand variants x 4 molecule variants (whole, offset, tail fragment, head fragment)' % len(self.cases)
+
+    def nblocks(self):
+        return (len(self.cases) + self.chunk - 1) // self.chunk
+
+    def run_block(self, b, acc):
+        from mc.coma import make_aligner
+        al = make_aligner(4, 100, 1, -25, 100, 120)
+        for name, ref, q, peaks in self.cases[b * self.chunk:(b + 1) * self.chunk]:
+            for rev, qq in ((False, q), (True, sorted(q[-1] - p for p in q)), (True, q)):
+                for variant in VARIANTS:
+                    acc.seq += 1
+                    check_row(ref, qq, peaks, rev, variant, acc, al)
+
+    def replay(self, case):
+        return check_row(case['reference'], case['query'], case['peaks'], case['reverse'], case['variant'], None)
+
+
 def layers(tier, seed):
     ws = e2e.std_worlds(tier, seed)
     extras = ((),) if tier == 'quick' else ((), ('-d', '600'), ('-p', '1', '-ms', '2000'))
-    return [e2e.WorldLayer('B:worlds', ws, e2e.judge_c02, extras=extras, cli_every=97,
+    return [AlignerRows(tier != 'quick', every=3 if tier == 'quick' else 1), e2e.WorldLayer('B:worlds', ws, e2e.judge_c02, extras=extras, cli_every=97,
                            bounds=dict(worlds=len(ws), modes=list(e2e.MODES), parameter_settings=[list(e) for e in extras],
                                        edit_depth=[0, 1] if tier == 'quick' else [0, 1, 2]))]
